@@ -16,7 +16,8 @@ ROOT = os.path.dirname(os.path.dirname(os.path.abspath(__file__)))
 REPO = os.environ.get('VERIF_REPO', '/repo')
 BUILD = os.path.join(ROOT, 'build')
 REPLAYS = os.path.join(ROOT, 'replays')
-EVIDENCE = os.path.join(ROOT, 'evidence')
+# evidence describes checks of /repo itself; runs against another tree (self-tests with VERIF_REPO) must not overwrite it
+EVIDENCE = os.path.join(ROOT, 'evidence') if os.path.realpath(REPO) == '/repo' else os.path.join(BUILD, 'evidence-other-tree')
 NPROC = int(os.environ.get('VERIF_JOBS', str(os.cpu_count() or 8)))
 
 VARIANTS = {
@@ -369,6 +370,9 @@ def triage(prop, cands, binaries, max_groups=24):
             continue
         open(planf, 'w').write(out)
         rc, out = sim_cmd(binary, ['shrink', planf, prop, repf], timeout=900)
+        if 'SHRINK ok' not in out and 'CRASH class=' in out:
+            # a candidate of a non-crashing violation crashed the in-process shrinker: evaluate every candidate in a forked child
+            rc, out = sim_cmd(binary, ['shrink', planf, prop, repf, '--fork'], timeout=1800)
         m = re.search(r'SHRINK ok ops=(\d+)->(\d+) evals=(\d+) kind=(\S+) props=(\S+) forked=(\d) what=(.*)', out)
         if not m:
             if 'SHRINK no-violation' in out or 'property-not-in-set' in out:
